@@ -721,6 +721,10 @@ def api_trace(j: int, seed: int) -> T.Dict[str, T.Any]:
                 picked = rnd.sample(keys, rnd.randint(1, min(3, len(keys))))
                 # buildtype next to an explicit debug/optimization of the same scope in one command: only the
                 # unqualified form is exercised here (the per-subproject form belongs to the "bt" family of A)
+                # (one buildtype per command: a second one that repeats the value the first just set is the
+                # "re-set to the current value" case again)
+                firstbt = next((p for p in picked if p[0] == 'buildtype'), None)
+                picked = [p for p in picked if p[0] != 'buildtype' or p == firstbt]
                 bts = {s for n, s in picked if n == 'buildtype' and s != '~'}
                 picked = [p for p in picked if not (p[0] in ('debug', 'optimization') and p[1] in bts)]
                 invalid_one = rnd.random() < 0.2
@@ -806,7 +810,7 @@ def main(chk: Check) -> None:
     rnd = random.Random(chk.seed)
     kinds = ALL_KINDS if not quick else [ALL_KINDS[(chk.seed + i) % 6] for i in (0, 2, 3)]
     n_cli = 48 if quick else 1000
-    n_api = 1500 if quick else 40000
+    n_api = 1500 if quick else 12000
     chk.rule = ('A1: every case exported by the TLC model replayed in-process on a real OptionStore; A2: cases merged '
                 '(~13 per generated project) through the real CLI; B: random API call sequences. Non-trivial = at '
                 'least two sources give the option, or a value is invalid (distinct case ids / call sequences).')
